@@ -225,7 +225,8 @@ pub fn run(ctx: &Ctx) -> Report {
     SrvCfg { hidden: cz.hidden.clone(), credentials: Some(("user".into(), "pw".into())), ..Default::default() },
     SrvCfg { hidden: cz.hidden.clone(), disable_json_api: true, ..Default::default() },
   ];
-  let accept_encodings: Vec<Option<&str>> = vec![None, Some("br"), Some("gzip"), Some("deflate;q=0.5, gzip;q=1.0, br;q=0.8")];
+  // (RFC 9110 allows optional whitespace around the coding and before its weight)
+  let accept_encodings: Vec<Option<&str>> = vec![None, Some("br"), Some("gzip"), Some("deflate;q=0.5, gzip;q=1.0, br;q=0.8"), Some("gzip , br ;q=0.8"), Some(" br ; q=1")];
   // the sat of the reinscribed output (slot (0, k)) is looked up from the index
   for scfg in &cfgs {
     let srv = match Srv::start(&cz.zoo.world, &dir, &icfg, scfg) {
